@@ -122,6 +122,24 @@ def check(ck):
     ck.stat("cfg_nodes", len(g.reachable))
     ck.stat("paths_bounded", count_paths(g))
 
+    # ---- C04.1 (first clause) the caller's dispatch callable is selected by identity ----------------------------------------------
+    # `dispatch_method or <default>` / `if dispatch_method:` replace a callable that happens to be false (an object with
+    # __len__ / __bool__: an empty registry, a Mock) by the default resolver: the notification is then dropped or misrouted
+    for fi_ in (fi, prog.func(SRV, DISP + "._unmarshaled_dispatch"), prog.func(SRV, DISP + "._marshaled_dispatch")):
+        for x in ast.walk(fi_.node):
+            cands = []
+            if isinstance(x, ast.BoolOp):
+                cands = x.values[:-1]
+            elif isinstance(x, (ast.If, ast.IfExp, ast.While)):
+                cands = [x.test]
+            elif isinstance(x, ast.UnaryOp) and isinstance(x.op, ast.Not):
+                cands = [x.operand]
+            for c_ in cands:
+                if isinstance(c_, ast.Name) and c_.id == "dispatch_method":
+                    ck.bad("C04.1", "%s: truth test of dispatch_method (`%s`)" % (q.fn(fi_), dump(x)[:50]),
+                           "the custom dispatch callable is chosen by its truth value (`%s`) instead of `is not None`: a callable that is "
+                           "false (defines __len__ / __bool__) is silently replaced by the default resolver - the notification it should "
+                           "have handled is not executed" % dump(x)[:60], q.loc(fi_, x))
     preds = find_predicate(fi, g, fi.params[1])
     if len(preds) != 1:
         raise AnalysisError("anchor vanished: notification predicate assignment in %s (found %d)" % (where, len(preds)))
